@@ -759,3 +759,37 @@ Example C14_bound_except_nonvacuous :
   DevServer.r_srv (DevServer.run_sess [DevServer.SCt None 1; DevServer.SCt (Some 1%N) 2; DevServer.SBadS] srv []) = srv /\
   DevServer.local_stmt 1 (DevServer.SCs 2 false) = false.
 Proof. vm_compute. repeat split. Qed.
+
+(** Round 5 (goal 2): the state after a failed RestoreFunc.  Whatever a first
+    session did and wherever it -- or its RestoreFunc -- failed, if what it left
+    is content the connection owns, the next session on the same driver and
+    connection is declined and issues nothing: leftovers are never built upon
+    nor wiped by a later command.  (Stages mysql/pg, scenario "twice": a fault
+    at every call of the first session, its restore included.) *)
+Theorem C14_after_failed_restore_mysql :
+  forall (b1 : list DevServer.sstmt) (sc2 : DevServer.scenario) (srv : DevServer.server) (fs : list bool),
+  let r1 := DevServer.run_sess b1 srv fs in
+  DevServer.holds_content (DevServer.r_srv r1) = true ->
+  let r2 := DevServer.run_scenario sc2 (DevServer.r_srv r1) (DevServer.r_fs r1) in
+  DevServer.r_trace r2 = [] /\ DevServer.r_srv r2 = DevServer.r_srv r1 /\ DevServer.r_ran r2 = false /\
+  (DevServer.r_out r2 = DevServer.SRefused \/ DevServer.r_out r2 = DevServer.SSnapErr).
+Proof. intros b1 sc2 srv fs r1 H. exact (C14_refuse_untouched_mysql sc2 (DevServer.r_srv r1) (DevServer.r_fs r1) H). Qed.
+Print Assumptions C14_after_failed_restore_mysql.
+
+Theorem C14_after_failed_restore_pg :
+  forall (bound : option N) (b1 : list DevServer.sstmt) (sc2 : DevServer.scenario) (srv : DevServer.server) (fs : list bool),
+  let r1 := DevServerPg.run_sess_pg bound b1 srv fs in
+  DevServerPg.holds_content_pg bound (DevServer.r_srv r1) = true ->
+  let r2 := DevServerPg.run_scenario_pg bound sc2 (DevServer.r_srv r1) (DevServer.r_fs r1) in
+  DevServer.r_trace r2 = [] /\ DevServer.r_srv r2 = DevServer.r_srv r1 /\ DevServer.r_ran r2 = false /\
+  (DevServer.r_out r2 = DevServer.SRefused \/ DevServer.r_out r2 = DevServer.SSnapErr).
+Proof. intros bound b1 sc2 srv fs r1 H. exact (C14_refuse_untouched_pg bound sc2 (DevServer.r_srv r1) (DevServer.r_fs r1) H). Qed.
+Print Assumptions C14_after_failed_restore_pg.
+
+Example C14_after_failed_restore_nonvacuous :
+  (* realm connection: the script creates s2, the restore's DROP DATABASE (call 6) fails: s2 is left,
+     the error is returned; the second session is refused and issues nothing *)
+  let '(r1, r2) := DevServer.run_twice [DevServer.SCs 2 false] [DevServer.SCt (Some 2%N) 7] (DevServer.mkSrv [] None) (DevServer.fault_stream [6] 20) in
+  DevServer.r_restored r1 = false /\ DevServer.holds_content (DevServer.r_srv r1) = true /\
+  DevServer.r_out r2 = DevServer.SRefused /\ DevServer.r_trace r2 = [] /\ DevServer.r_srv r2 = DevServer.r_srv r1.
+Proof. vm_compute. repeat split. Qed.
